@@ -132,6 +132,95 @@ def c14_case(args):
 
 
 # ------------------------------------------------------------------------------------------------------ C15
+POISON = """entity open_regions is
+end entity open_regions;
+
+architecture rtl of open_regions is
+begin
+end architecture rtl;
+-- vsg_off
+-- synthesis translate_off
+--vhdl_comp_off
+simulation only notes follow
+/* a delimited comment that is never closed
+"""
+
+
+def state_fingerprint():
+    """repr of every module-level and class-level mutable container of vsg.* (C15: a call of apply_rules must not
+    leave anything behind that the next file can see)"""
+    import sys
+
+    out = {}
+    for name, mod in sorted(sys.modules.items()):
+        if not (name == "vsg" or name.startswith("vsg.")) or mod is None:
+            continue
+        for k, v in sorted(vars(mod).items()):
+            if k.startswith("__"):
+                continue
+            if isinstance(v, (dict, list, set)):
+                try:
+                    out[name + "." + k] = repr(v)[:20000]
+                except Exception:
+                    pass
+            elif isinstance(v, type) and getattr(v, "__module__", "") == name:
+                for ck, cv in sorted(vars(v).items()):
+                    if isinstance(cv, (dict, list, set)) and not ck.startswith("__"):
+                        out[name + "." + k + "." + ck] = repr(cv)[:20000]
+    return out
+
+
+def c15_state_case(args):
+    """in-process: apply_rules on a file with open regions, then on corpus files; shared state must be unchanged and
+    each later result equal to the result in a fresh process state"""
+    paths, seed = args
+    import importlib
+
+    from vsg import apply_rules, config
+
+    vf = importlib.import_module("vsg.vhdlFile.vhdlFile")
+    d = tempfile.mkdtemp(prefix="c15s_")
+    probs = []
+    try:
+        pz = os.path.join(d, "open_regions.vhd")
+        open(pz, "w").write(POISON)
+
+        def run(p):
+            cla = vf.command_line_args()
+            cla.style = None
+            cla.configuration = []
+            cla.junit = None
+            cla.json = "x"
+            cla.quality_report = None
+            cla.local_rules = None
+            cla.fix = False
+            cla.backup = False
+            cla.all_phases = True
+            cla.skip_phase = []
+            cla.fix_phase = 7
+            cla.output_format = "vsg"
+            cla.fix_only = None
+            oConfig = config.New(cla)
+            r = apply_rules.apply_rules(cla, oConfig, (0, p))
+            return (r[0], r[2], r[3], r[4])
+
+        for p in paths:
+            run(p)  # warm up: imports and lazily created state
+        base = {p: run(p) for p in paths}
+        fp0 = state_fingerprint()
+        run(pz)
+        fp1 = state_fingerprint()
+        changed = [k for k in fp0 if fp1.get(k) != fp0[k]] + [k for k in fp1 if k not in fp0]
+        if changed:
+            probs.append("apply_rules left shared state behind: %s" % ", ".join(changed[:4]))
+        for p in paths:
+            if run(p) != base[p]:
+                probs.append("result of %s differs after a file that ends inside open regions was processed in the same process" % os.path.basename(p))
+        return (paths, probs)
+    finally:
+        shutil.rmtree(d, ignore_errors=True)
+
+
 def c15_case(args):
     paths, seed = args
     r = random.Random(seed)
@@ -144,6 +233,8 @@ def c15_case(args):
             shutil.copyfile(p, os.path.join(d, n))
             names.append(n)
         open(os.path.join(d, "bad.vhd"), "w").write("entity e is\n  port (a : in std_logic\nend entity e;;\narchitecture\n")
+        # a legal file that ends inside every kind of open region: nothing of it may leak into the next file
+        open(os.path.join(d, "open_regions.vhd"), "w").write(POISON)
         alone = {}
         for n in names:
             js = os.path.join(d, "a.json")
@@ -151,7 +242,7 @@ def c15_case(args):
             alone[n] = (parse_std(p.stdout).get(n), json.load(open(js))["files"][0]["violations"], p.returncode)
         order = list(names)
         r.shuffle(order)
-        batch = order[:1] + ["bad.vhd"] + order[1:]
+        batch = ["open_regions.vhd"] + order[:1] + ["bad.vhd"] + order[1:]
         for jobs in (1, 4):
             js = os.path.join(d, "b%d.json" % jobs)
             p = cli(["-f"] + batch + ["-ap", "-p", str(jobs), "--json", js], d)
@@ -160,7 +251,7 @@ def c15_case(args):
                 continue
             blocks = parse_std(p.stdout)
             seq = [m.group(1).strip() for m in re.finditer(r"^File:\s+(.*)$", p.stdout, re.M)]
-            if seq != [b for b in batch if b != "bad.vhd"]:
+            if [x for x in seq if x != "open_regions.vhd"] != [b for b in batch if b not in ("bad.vhd", "open_regions.vhd")]:
                 probs.append("-p %d: output order %r differs from command-line order %r" % (jobs, seq, batch))
             jf = {e["file_path"]: e["violations"] for e in json.load(open(js))["files"]}
             for n in names:
@@ -186,10 +277,11 @@ def c15_case(args):
             shutil.copyfile(os.path.join(d, n), os.path.join(e2, n))
         for n in names:
             cli(["-f", n, "--fix"], e1)
-        cli(["-f"] + order + ["--fix", "-p", "4"], e2)
+        shutil.copyfile(os.path.join(d, "open_regions.vhd"), os.path.join(e2, "open_regions.vhd"))
+        cli(["-f", "open_regions.vhd"] + order + ["--fix", "-p", "1"], e2)
         for n in names:
             if open(os.path.join(e1, n)).read() != open(os.path.join(e2, n)).read():
-                probs.append("fixed text of %s differs between alone and batch/-p 4" % n)
+                probs.append("fixed text of %s differs between alone and in a batch after a file with open regions" % n)
         return (paths, probs)
     finally:
         shutil.rmtree(d, ignore_errors=True)
